@@ -357,6 +357,8 @@ class Interp:
                 raise AstError(f"redeclaration of {name} in the same scope")
             cplx = node.values is not None and np.iscomplexobj(node.values)
             dt = complex if (cplx or node.symbol.dtype == L.DataType.SCALAR and self.scalar_complex) else float
+            if node.symbol.dtype == L.DataType.INT:
+                dt = np.int64  # integer tables (e.g. <cell>_facet_edge_vertices) are used as subscripts
             self.scopes[-1][name] = Array(name, node.sizes, node.values, dtype=dt)
             return
         if isinstance(node, L.ForRange):
